@@ -35,7 +35,7 @@ KNOWN_BAD = {
 
 
 @rule("C01.R10", "the pydantic configuration shared by every generated model is exactly the confirmed table", min_instances=5,
-      also=["C03", "C04", "C05", "C06", "C07", "C08", "C15"])
+      also=["C03", "C04", "C05", "C06", "C07", "C08", "C11", "C15"])
 def c01_r10(ctx):
     repo = ctx.repo
     ci = repo.cls(DEP + "base_model:BaseModel")
